@@ -765,14 +765,21 @@ public:
       assert(max() >= rowSize);
 
       int i;
+      int n = 0;
 
+      // like the other assignments: exact zeros are not stored
       for(i = 0; i < rowSize && i < max(); i++)
       {
-         m_elem[i].val = rowValues[i];
-         m_elem[i].idx = rowIndices[i];
+         m_elem[n].val = rowValues[i];
+
+         if(m_elem[n].val != 0)
+         {
+            m_elem[n].idx = rowIndices[i];
+            n++;
+         }
       }
 
-      set_size(i);
+      set_size(n);
 
       return *this;
    }
